@@ -27,7 +27,7 @@ func init() {
 		Race:         true,
 		FreshProcess: true,
 		Rule: "built with -race. Each round takes one module (parsed from the corpus or constructed through the API, with unnamed globals, locals and unassigned metadata IDs), in never-printed or already-printed state, and lets N in {2,4,16} goroutines (GOMAXPROCS 2 or 16) start on a barrier and call String/WriteTo/Func.LLString/Block.LLString/Global.LLString/Type/Ident/String on it, while the Yield hooks inside AssignIDs/AssignGlobalIDs/AssignMetadataIDs/WriteTo/Func.LLString inject PRNG Gosched/sleeps; every returned text is compared with a separately built twin printed sequentially (in the fresh scenario only after the first concurrent round, which starts 16 whole-module printers at once: each case runs in its own process, so the first printing activity of the process is concurrent and process-level state initialised by a first print is not warmed up beforehand), and every race-detector report is a violation (de-duplicated by the pair of top llir/llvm frames). " +
-			"Scenario literalmod: the module itself is a struct literal (&ir.Module{}) holding unnamed globals, an unnamed function and ID-less metadata made by the constructors; never printed, whole-module printers only. " +
+			"Staged rounds (a delay injected at the hook inside AssignMetadataIDs): one goroutine holds the module lock in the metadata numbering pass of a never-printed module until all whole-module printers have started. In the scenarios whole and literalmod a goroutine may also run the numbering passes on their own (AssignMetadataIDs, AssignGlobalIDs, Func.AssignIDs: what WriteTo starts with, public, under the same locks) next to the printers. Scenario literalmod: the module itself is a struct literal (&ir.Module{}) holding unnamed globals, an unnamed function and ID-less metadata made by the constructors; never printed, whole-module printers only. " +
 			"Scenario literal: a never-printed module whose function, globals, alias and constant expression are built as struct literals (empty Typ caches), whole-module printers only. " +
 			"The constructed module also holds extended-precision constants (x86_fp80, fp128, ppc_fp128, half), a metadata list out of ID order, declarations without linkage and named struct-literal instructions used as typed operands. " +
 			"non-trivial = a round in which at least two printers were inside a print call at the same time (witnessed by the harness' activity counter); distinct by (module, state, N, round)",
@@ -316,7 +316,26 @@ func c13Rounds(r *fw.Rec, sc, id, input string, mk func() *ir.Module, rounds int
 		st := &c13Stats{}
 		var hookCtr uint64
 		hseed := rng.Uint64()
+		// staged rounds (injected delay at a hook): goroutine 0 runs only the metadata
+		// numbering pass and is held inside it, under the module's lock, until every
+		// other goroutine has started its whole-module print; nobody has numbered
+		// the globals yet, so every printer has to wait for the lock and do it
+		staged := (sc == "whole" || sc == "literalmod") && !preprinted && !cold && n > 2 && round%2 == 0
+		inside := make(chan struct{})
+		var insideOnce sync.Once
+		var arrived int32
 		verifhook.SetYield(func(site string) {
+			if staged && site == "Module.AssignMetadataIDs" {
+				first := false
+				insideOnce.Do(func() { first = true; close(inside) })
+				if first {
+					// hold the lock until the printers have been released and had time to reach it
+					for i := 0; i < 200 && atomic.LoadInt32(&arrived) < int32(n-1); i++ {
+						time.Sleep(50 * time.Microsecond)
+					}
+					time.Sleep(300 * time.Microsecond)
+				}
+			}
 			c := atomic.AddUint64(&hookCtr, 1)
 			atomic.AddInt64(&st.yields, 1)
 			x := (c*0x9E3779B97F4A7C15 + hseed) >> 33
@@ -348,9 +367,27 @@ func c13Rounds(r *fw.Rec, sc, id, input string, mk func() *ir.Module, rounds int
 			go func(gi int, grng *rand.Rand) {
 				defer wg.Done()
 				<-start
+				if staged && gi > 0 {
+					<-inside
+					atomic.AddInt32(&arrived, 1)
+				}
 				ops := 2 + grng.Intn(3)
 				for k := 0; k < ops; k++ {
 					var rs res
+					if staged && gi == 0 && k == 0 {
+						p, msg, _ := fw.Guard(func() {
+							if err := m.AssignMetadataIDs(); err != nil {
+								panic(err)
+							}
+						})
+						insideOnce.Do(func() { close(inside) }) // a module without the hook site: release the others anyway
+						rs = res{what: "staged: AssignMetadataIDs held under the lock while the printers start", kind: "none"}
+						if p {
+							rs.pmsg = "panic: " + msg
+						}
+						results[gi] = append(results[gi], rs)
+						continue
+					}
 					a := atomic.AddInt32(&st.active, 1)
 					for {
 						mx := atomic.LoadInt32(&st.maxActive)
@@ -363,7 +400,23 @@ func c13Rounds(r *fw.Rec, sc, id, input string, mk func() *ir.Module, rounds int
 						if sc == "whole" || sc == "literal" || sc == "literalmod" {
 							choice = choice % 5
 						}
+						// the numbering passes WriteTo starts with are public and take the same
+						// locks: called on their own next to whole-module printers
+						numbering := (sc == "whole" || sc == "literalmod") && (k > 0 || gi >= 2) && !cold && grng.Intn(3) == 0
 						switch {
+						case numbering:
+							rs = res{what: "numbering passes (AssignMetadataIDs, AssignGlobalIDs, Func.AssignIDs)", kind: "none"}
+							if err := m.AssignMetadataIDs(); err != nil {
+								rs.pmsg = "AssignMetadataIDs: " + err.Error()
+							}
+							if err := m.AssignGlobalIDs(); err != nil {
+								rs.pmsg = "AssignGlobalIDs: " + err.Error()
+							}
+							for _, f := range m.Funcs {
+								if err := f.AssignIDs(); err != nil {
+									rs.pmsg = "Func.AssignIDs: " + err.Error()
+								}
+							}
 						case choice < 4 || (k == 0 && (gi < 2 || cold)):
 							rs = res{what: "Module.String", kind: "module", got: m.String()}
 						case choice < 5:
